@@ -41,6 +41,7 @@ type dnsEntryObs struct {
 	ttlMax     uint32 // largest record TTL of the answer (mixed-TTL answers)
 	ttlFirst   uint32 // TTL of the first record
 	refreshed  bool // inserted by a background refresh
+	replacedExisting bool // stored over an entry that was cached under the key at that moment
 	restored   bool // came from a reload clone: keeps the deadline of its origin
 	origin     *dnsEntryObs
 	countAtRemoval int
@@ -211,6 +212,15 @@ func (t *dnsCacheTrack) scan() {
 		}
 		if old != nil {
 			old.removed, old.replaced, old.removedAt, old.removeStep = true, true, now, step
+			e.replacedExisting = true
+			// A lookup of this key that is in progress right now may have touched the entry
+			// object that has just been replaced: its recency may or may not have been carried
+			// over, so it is not a DEFINITE use of the key for the LRU oracle.
+			for _, op := range w.curOp {
+				if e.keyOK && op.key == e.key {
+					op.useUncertain = true
+				}
+			}
 		}
 		news = append(news, e)
 		return true
@@ -317,10 +327,28 @@ func (t *dnsCacheTrack) byAnswer(id int) []*dnsEntryObs {
 	return r
 }
 
-func (t *dnsCacheTrack) touch(k dnsKey, from, to time.Duration) {
+// touch records a client lookup of key k during [from,to]. min is the instant from
+// which the key is DEFINITELY used at least that recently (used when the key is the
+// eviction victim), max the latest instant it may have been used (used when the key
+// survives). An uncertain lookup (it overlapped a replacement of the key's entry)
+// only raises max.
+func (t *dnsCacheTrack) touch(k dnsKey, from, to time.Duration, uncertain bool) {
 	u, ok := t.lastUse[k]
-	if !ok || to >= u.max {
+	switch {
+	case uncertain && ok:
+		if to > u.max {
+			u.max = to
+			t.lastUse[k] = u
+		}
+	case uncertain:
+		// no definite use known: nothing to claim for the victim side
+	case !ok || to >= u.max:
 		t.lastUse[k] = dnsUse{min: from, max: to}
+	default:
+		if from > u.min {
+			u.min = from
+			t.lastUse[k] = u
+		}
 	}
 }
 
